@@ -147,11 +147,12 @@ def gen_pb(rng):
     nkeys = rng.choice([1, 1, 2, 3])
     ops = []
     t = 0
+    dup = rng.random() < 0.35          # clients that re-send the value already written (idempotent rewrites)
     for i in range(rng.randint(1, 7)):
         t += rng.choice([0, 500, 1000, 1000, 3000, 8000])
         r = rng.random()
         if r < 0.72:
-            ops.append([t, "W", 0, rng.randrange(nkeys), 100 + i, rng.random() < 0.9])
+            ops.append([t, "W", 0, rng.randrange(nkeys), (100 + i % 2) if dup else 100 + i, rng.random() < 0.9])
         elif r < 0.94:
             ops.append([t, "R", rng.randint(0, nb), rng.randrange(nkeys), 100 + i, rng.random() < 0.9])
         elif r < 0.97:
